@@ -177,14 +177,16 @@ def run(res, tier, seed):
                            ("gac_pod", "noaa14", datetime.datetime(1996, 2, 29, 11, 0, 0)), ("lac_klm", "noaa19", datetime.datetime(2012, 12, 31, 18, 0, 0)),
                            ("gac_pod", "noaa11", datetime.datetime(1990, 1, 1, 0, 0, 30)), ("gac_klm", "noaa16", datetime.datetime(2004, 12, 31, 23, 0, 0)),
                            # the first 60 lines of the pass are absent: the header start (line 1) lies on the previous UTC day
-                           ("gac_klm", "noaa16", datetime.datetime(2001, 4, 11, 0, 0, 10), 61), ("gac_pod", "noaa14", datetime.datetime(1997, 1, 1, 0, 0, 5), 41)]:
+                           ("gac_klm", "noaa16", datetime.datetime(2001, 4, 11, 0, 0, 10), 61), ("gac_pod", "noaa14", datetime.datetime(1997, 1, 1, 0, 0, 5), 41),
+                           # a pass of 1300 lines that crosses UTC midnight after 4 minutes: the whole pass is calibrated for the first line's date
+                           ("gac_klm", "noaa16", datetime.datetime(2003, 7, 19, 23, 56, 0), 1, 1300)]:
         lead_first = rest[0] if rest else 1
         W = l1b.FMT[fmt]["width"]
         samples = []
         for p in range(W):
             samples += [(3 * p) % 1024, (5 * p + 100) % 1024, (7 * p + 300) % 1024, 600, 620]
-        n = 40
-        lines = l1b.default_lines(fmt, n, start, counts=samples, switch=[1] * n, first=lead_first)
+        n = rest[1] if len(rest) > 1 else 40
+        lines = l1b.default_lines(fmt, n, start, counts=(l1b.words_bytes(l1b.pack_words(samples)) if n > 200 else samples), switch=[1] * n, first=lead_first)
         hstart = start - datetime.timedelta(milliseconds=500 * (lead_first - 1))
         try:
             r = impl.open_reader(fmt, l1b.build_file(fmt, sc, start, lines, header_start=hstart), adjust_clock_drift=False)
@@ -215,7 +217,7 @@ def run(res, tier, seed):
             for p in rng.sample(range(W), 12):
                 c = samples[5 * p + chn]
                 ex = spec_exact(co, chn, year, jday, Fraction(corr), Fraction(c))
-                for li in (0, n - 1):
+                for li in (0, n // 2, n - 1):
                     gv = float(ch[li, p, chn])
                     if (ex is None) != math.isnan(gv) or (ex is not None and abs(Fraction(gv) - ex) > Fraction(1, 10 ** 8) * (1 + abs(ex))):
                         res.violations.append(("pipeline reflectance is not PATMOS-x at the first line's date with the first line's distance factor",
